@@ -12,10 +12,13 @@ static int or_seg_is_dotdot(const CH *t, long a, long b){ return b - a == 2 && o
  * leaves a trailing slash (an empty last segment).  With keep_leading_dotdot (normalisation of relative-path references)
  * ".." segments that have nothing to remove are kept.  Returns the output length. */
 #define OR_MAXSEG 32
+static int or_rooted;   /* set by or_remove_dots: was the input path rooted (began with '/') */
 static long or_remove_dots(const CH *in, long n, CH *out, int keep_leading_dotdot){
   long sa[OR_MAXSEG], sb[OR_MAXSEG]; int isdd[OR_MAXSEG]; int ns = 0; long i, s, o = 0; int rooted = 0, k, trailing = 0;
+  or_rooted = 0;
   if (n == 0) return 0;
   i = 0; if (os_is(CHV(in[0]), '/')){ rooted = 1; i = 1; }
+  or_rooted = rooted;
   if (rooted && n == 1){ out[0] = '/'; return 1; }
   s = i;
   for (; i <= n; i++){
@@ -48,7 +51,7 @@ static long or_copy(CH *d, long n, const CH *t, long a, long b){ long i; for (i 
  * identical_scheme_compat: the non-strict branch.  The '/.' guard of the property statement is applied. */
 static long or_resolve(const CH *bt, long bn, const os_split_t *b, const CH *rt, long rn, const os_split_t *r, int compat, CH *out, CH *tmp, CH *tmp2){
   int r_has_scheme = r->sch_a >= 0; long n = 0, pn = 0; int t_has_auth; const CH *at = 0; const os_split_t *as = 0;
-  long qa = -1, qb = -1; const CH *qt = 0;
+  long qa = -1, qb = -1; const CH *qt = 0; int rooted = 1;
   (void)bn; (void)rn;
   if (compat && r_has_scheme){
     long l1 = r->sch_b - r->sch_a, l2 = b->sch_b - b->sch_a; int same = (l1 == l2); long i;
@@ -57,7 +60,7 @@ static long or_resolve(const CH *bt, long bn, const os_split_t *b, const CH *rt,
   }
   if (r_has_scheme){
     n = or_copy(out, n, rt, r->sch_a, r->sch_b); t_has_auth = r->has_auth; at = rt; as = r;
-    pn = or_remove_dots(rt + r->path_a, r->path_b - r->path_a, tmp, 0); qa = r->q_a; qb = r->q_b; qt = rt;
+    pn = or_remove_dots(rt + r->path_a, r->path_b - r->path_a, tmp, 0); rooted = or_rooted; qa = r->q_a; qb = r->q_b; qt = rt;
   } else {
     n = or_copy(out, n, bt, b->sch_a, b->sch_b);
     if (r->has_auth){
@@ -75,7 +78,7 @@ static long or_resolve(const CH *bt, long bn, const os_split_t *b, const CH *rt,
           if (b->has_auth && b->path_a == b->path_b){ tmp2[m++] = '/'; }
           else { long last = -1, i; for (i = b->path_a; i < b->path_b; i++) if (os_is(CHV(bt[i]), '/')) last = i; if (last >= 0) m = or_copy(tmp2, 0, bt, b->path_a, last + 1); }
           m = or_copy(tmp2, m, rt, r->path_a, r->path_b);
-          pn = or_remove_dots(tmp2, m, tmp, 0);
+          pn = or_remove_dots(tmp2, m, tmp, 0); rooted = or_rooted;
         }
         qa = r->q_a; qb = r->q_b; qt = rt;
       }
@@ -89,7 +92,8 @@ static long or_resolve(const CH *bt, long bn, const os_split_t *b, const CH *rt,
     e = as->path_a;
     n = or_copy(out, n, at, (as->ui_a >= 0 ? as->ui_a : (as->hostkind == HK_IP6 || as->hostkind == HK_FUTURE ? as->host_a - 1 : as->host_a)), e);
   } else if (pn >= 2 && os_is(CHV(tmp[0]), '/') && os_is(CHV(tmp[1]), '/')){
-    out[n++] = '/'; out[n++] = '.';     /* the guard: "//..." without authority would be read as an authority */
+    if (rooted){ out[n++] = '/'; out[n++] = '.'; }   /* the guard: one "." segment in front, so "//..." is not read as an authority */
+    else { out[n++] = '.'; out[n++] = '/'; }
   }
   n = or_copy(out, n, tmp, 0, pn);
   if (qa >= 0){ out[n++] = '?'; n = or_copy(out, n, qt, qa, qb); }
